@@ -595,7 +595,150 @@ def oracle_bb(c):
     return fails, wires
 
 
+# ---- BEGIN wirek leg: the Wire as a process on the kernel MODEL (lean/OnlVerif/Net/WireOnK.lean, driver mode `wirek`) ----
+def run_wirek(ctx, cov=None, dis=None, orc=None):
+    """Extra leg for Props/C10K.lean: the K program of the Wire, run at Float by the compiled driver, against the real Wire
+    with a real source process on the real kernel (public API only), compared line for line; plus the delivery recurrence
+    restated over the implementation's own observations.  Called twice from run(): with no lists it answers whether
+    ctx.replay is a replay of this leg (then it runs only this leg); with them it appends its results in place."""
+    from vlib.util import unbits
+    from onl.packet import Packet
+
+    def replay_cases():
+        j = json.load(open(ctx.replay))
+        cs = ([j['case']] if j.get('case') else []) + [d['case'] for d in (j.get('broken_correspondence') or []) if d.get('case')]
+        return [c for c in cs if c.get('kind') == 'wirek']
+
+    if cov is None:                       # first call: is this a replay of a wirek case?  then run only this leg
+        if not (ctx.replay and replay_cases()):
+            return None
+        cov, dis, orc = {'evaluations': 0, 'distinct_nontrivial': 0, 'rule': 'replay of a wirek case', 'samples': []}, [], []
+        run_wirek(ctx, cov, dis, orc)
+        k = cov['wire_on_kernel_model']
+        cov.update(evaluations=k['evaluations'], distinct_nontrivial=k['distinct_nontrivial'], samples=[k['sample']])
+        return dict(coverage=cov, disagreements=dis, oracle_failures=orc)
+
+    def gen(rng, cid):
+        loss = rng.choice([None, None, 0.0, 0.25, 0.5, 0.5, 1.0, rng.random()])
+        n = rng.randint(0, 12)
+        arr = [rng.choice([0, 0, 0, 0.5, 1, 1, 2, 3, 5, round(rng.random() * 4, 3)]) for _ in range(n)]
+        mode = rng.choice(['const', 'dec', 'zero', 'rand', 'dyadic'])
+        if mode == 'const':
+            d0 = rng.choice([0.5, 1, 2, 3.5]); delays = [d0] * n
+        elif mode == 'dec':
+            delays = [max(0.0, 6 - 0.75 * i) for i in range(n)]
+        elif mode == 'zero':
+            delays = [0.0] * n
+        elif mode == 'rand':
+            delays = [rng.random() * 5 for _ in range(n)]
+        else:
+            delays = [rng.choice([0, 0.25, 0.5, 1, 1.5, 2, 4]) for _ in range(n)]
+        losses = [rng.randrange(8) / 8 if rng.random() < 0.5 else rng.random() for _ in range(n)]
+        return {'cid': f'w{cid}', 'kind': 'wirek', 'loss': loss, 'arrivals': arr, 'delays': delays, 'losses': losses}
+
+    def text(c):
+        return ([f"CASE {c['cid']} {'None' if c['loss'] is None else bits(c['loss'])}"] + [f'arr {bits(g)}' for g in c['arrivals']]
+                + [f'loss {bits(x)}' for x in c['losses']] + [f'delay {bits(d)}' for d in c['delays']] + ['END'])
+
+    def impl(c):
+        env = Environment()
+        losses, delays, outs = list(c['losses']), list(c['delays']), []
+
+        class Draws:                      # stands in for the `random` module inside onl.netdev.wire
+            def uniform(self, a, b):
+                return losses.pop(0) if losses else 0.0
+
+        def delay_dist():
+            return delays.pop(0) if delays else 0.0
+        wire = Wire(env, delay_dist, c['loss'])
+
+        class Rec:
+            def put(self, packet):
+                outs.append(f'out {packet.packet_id} {bits(env.now)}')
+        wire.out = Rec()
+
+        def src():
+            for i, gap in enumerate(c['arrivals']):
+                yield env.timeout(gap)
+                wire.put(Packet(env.now, 100, i, src='src', flow_id=0))
+        env.process(src())
+        old = wire_mod.random
+        wire_mod.random = Draws()
+        try:
+            with quiet():
+                env.run()
+            tag = 'RET'
+        except BaseException as x:        # noqa - the property says the run never raises
+            tag = f'RAISED {type(x).__name__}'
+        finally:
+            wire_mod.random = old
+        return [tag] + outs + [f'cells rec={wire.packets_rec}', f'now {bits(env.now)}']
+
+    def oracle_k(c, lines):
+        """C10 restated over the implementation's own observations: packet k (arrival a_k = sum of the gaps) is lost iff loss_rate is
+        truthy and its draw is < loss_rate; otherwise it is delivered at max(a_k + d, previous delivery) (within 4 ulp: the wire sleeps
+        `d - (now - a_k)`), in arrival order"""
+        if lines[0] != 'RET':
+            return [{'what': f'the run ended with {lines[0]}', 'signature': 'wirek-raised'}]
+        outs = [(int(l.split()[1]), unbits(int(l.split()[2]))) for l in lines if l.startswith('out ')]
+        t, prev, want, nl, nd = 0.0, None, [], 0, 0
+        for k, gap in enumerate(c['arrivals']):
+            t = t + gap
+            lost = False
+            if c['loss']:
+                x = c['losses'][nl] if nl < len(c['losses']) else 0.0
+                nl += 1
+                lost = x < c['loss']
+            if lost:
+                continue
+            d = c['delays'][nd] if nd < len(c['delays']) else 0.0
+            nd += 1
+            prev = t + d if prev is None or t + d > prev else prev
+            want.append((k, prev))
+        if [i for i, _ in outs] != [i for i, _ in want]:
+            return [{'what': f'delivered packets {[i for i, _ in outs][:8]}, prescribed {[i for i, _ in want][:8]}', 'signature': 'wirek-which'}]
+        for (i, t1), (_, t2) in zip(outs, want):
+            if not ulp_close(t1, t2):
+                return [{'what': f'packet {i} delivered at {t1!r}, prescribed max(a + d, previous delivery) = {t2!r}', 'signature': 'wirek-delivery-time'}]
+        return []
+
+    rng = random.Random(f'C10-wirek-{ctx.seed}')
+    cases = replay_cases() if ctx.replay else [gen(rng, i) for i in range(300 if ctx.quick else 5000)]
+    txt, got = [], {}
+    for c in cases:
+        got[c['cid']] = impl(c)
+        txt += text(c)
+    model = split_cases(run_driver('wirek', '\n'.join(txt) + '\n')) if cases else {}
+    hist, nontriv = collections.Counter(), 0
+    for c in cases:
+        a, b = got[c['cid']], model.get(c['cid'])
+        if a != b:
+            i = next((i for i in range(max(len(a), len(b or []))) if i >= len(a) or not b or i >= len(b) or a[i] != b[i]), 0)
+            dis.append({'case': c, 'detail': f'wirek line {i}: impl `{a[i] if i < len(a) else None}` model `{b[i] if b and i < len(b) else None}`',
+                        'impl': a[:300], 'model': (b or [])[:300]})
+        for f in oracle_k(c, a):
+            f['case'] = c; f['trace'] = a[:300]
+            orc.append(f)
+        ts = [l.split()[2] for l in a if l.startswith('out ')]
+        caught = sum(1 for x, y in zip(ts, ts[1:]) if x == y)
+        lost = len(c['arrivals']) - len(ts)
+        hist['delivered'] += len(ts); hist['lost'] += lost; hist['caught_up_with_predecessor'] += caught
+        hist['loss:' + ('None' if c['loss'] is None else 'zero' if not c['loss'] else 'one' if c['loss'] >= 1 else 'p')] += 1
+        if caught or lost:
+            nontriv += 1
+    cov['wire_on_kernel_model'] = {
+        'evaluations': len(cases), 'distinct_nontrivial': nontriv, 'lines_compared': sum(len(v) for v in got.values()),
+        'rule': 'random arrival gaps, delay sequences (constant/decreasing/zero/random/dyadic) and loss draws run by the K program at Float '
+                '(driver mode wirek) and by the real Wire with a real source process under env.run(); non-trivial = a loss or a packet that '
+                'caught up with its predecessor', 'histogram': dict(sorted(hist.items())), 'sample': cases[0] if cases else None}
+    return None
+# ---- END wirek leg ----
+
+
 def run(ctx):
+    wk = run_wirek(ctx)                      # wirek leg: a replay of one of its cases runs only that leg
+    if wk is not None:
+        return wk
     rng = random.Random(f'C10-{ctx.seed}')
     if ctx.replay:
         j = json.load(open(ctx.replay))
@@ -690,4 +833,5 @@ def run(ctx):
                                 'order, exact clamping to the previous delivery, loss patterns across devices and across seeds', 'histogram': dict(sorted(bbhist.items()))}
     cov.update({'translated': _PREP.get('translated', []), 'generated_files_rewritten': _PREP.get('rewritten', []),
                 'generated_diff_vs_pinned': _PREP.get('diff_vs_pinned', []), 'bridge_theorems': BRIDGES, 'hand_modelled': HAND_MODELLED})
+    run_wirek(ctx, cov, dis, orc)            # wirek leg: appends its coverage, disagreements and oracle failures in place
     return {'coverage': cov, 'disagreements': dis, 'oracle_failures': orc}
